@@ -6,6 +6,13 @@ multi-chromosome / multi-family input.  Oracle (Python, independent of the Lean 
 the property evaluated on (input VCF, output VCF, the three list files, trace).  Correspondence: the files
 must equal what the Lean state machine (`c20.run`, repaired writers) produces from the traced instances and
 from the change rows of the Lean record writer (`c04.write`) fed with the traced super-reads/components.
+
+Deepened (E14): the three files are also compared *line by line, header included* with the file-level machine `c20.files`
+(`runF`: header once, `started` flags, content found at the paths before the run, per-chromosome `components` dict) — as
+the code is now or after `fixes/F80.patch`; the sequence of (chromosome, family, children) in the trace must equal
+`c20.order` (`processingOrder`: VCF chromosome order x `setup_families` = families sorted by smallest member, children in
+PED order) computed from the VCF header, `--sample` and the PED file only; `setup_pedigree`/`setup_families` are run
+in-process on random pedigrees (`c20.families`).
 """
 import json, os, random, shutil
 
@@ -15,7 +22,8 @@ from harness.gen.c20_ped import scenario_from_case
 
 RULE = ("one `whatshap phase` CLI run over a generated pedigree scenario (1-3 chromosomes, 0-2 trios/quartet plus "
         "unrelated samples, random subset of --output-read-list/--changed-genotype-list/--recombination-list, "
-        "with/without --ped, --distrust-genotypes(+genotype errors), --chromosome/--sample selections, both tags). "
+        "with/without --ped (also with ignorable / reordered PED lines), --distrust-genotypes(+genotype errors), --chromosome/--sample "
+        "selections incl. a selection that matches no chromosome, list paths that already exist, both tags). "
         "Non-trivial: at least two (chromosome, family) instances were processed and at least one requested list has "
         "data rows; distinct = distinct (generator seed, options)")
 MANIFEST = dict(
@@ -23,7 +31,10 @@ MANIFEST = dict(
          "list files (lists_cover_run for the repaired writers, its negation for the code as it is: F1), about the "
          "read-list rows, find_recombination and the change rows of the record writer; tied to the working tree by "
          "real CLI runs whose files are compared with the model fed with the traced instances, plus an independent "
-         "oracle evaluating the four predicates on (input VCF, output VCF, list files, trace)",
+         "oracle evaluating the four predicates on (input VCF, output VCF, list files, trace). Deepened: file-level state "
+         "machine (header once, started flags, old content of the paths, per-chromosome components dict) with "
+         "files_cover_run for arbitrary old content, setup_families/processing order (union-find with minimum "
+         "representative) proved and compared in-process and against the trace order; files compared line by line",
     design_ref="DESIGN.md §5 C20, §6 F1",
     note="trusted: Lean kernel; the hand-written model (differential: quick ~14 CLI runs, thorough ~100); pysam/htslib "
          "parsing; the trace hook. F1 (lists re-opened with 'w' per chromosome/family) is a genuine defect of /repo: "
@@ -86,7 +97,42 @@ def gen_case(rng, scale=1):
     chroms = list(sc.contigs)
     opts["chromosomes"] = sorted(r2.sample(chroms, r2.randrange(1, len(chroms) + 1))) if (opts.pop("chrom_sel") and len(chroms) > 1) else None
     opts["samples"] = sorted(r2.sample(sc.samples, r2.randrange(1, len(sc.samples) + 1))) if (opts.pop("sample_sel") and len(sc.samples) > 1) else None
+    # E14: a run that processes no chromosome at all (--chromosome names nothing in the VCF); PED files with lines the
+    # code has to ignore (unknown parent, individual not in the VCF, comments) and in another order than the samples
+    if r2.random() < 0.06:
+        opts["chromosomes"] = ["chrNope"]
+    if opts["ped"] and r2.random() < 0.5:
+        opts["ped_extra"] = r2.choice(["ghost-child", "unknown-parent", "comment", "reversed", "ghost-child+reversed"])
     return case
+
+
+def ped_text(sc, o):
+    lines = [f"fam{i}\t{c}\t{f}\t{m}\t0\t1" for i, (f, m, c) in enumerate(sc.trios)]
+    extra = o.get("ped_extra") or ""
+    if "reversed" in extra:
+        lines.reverse()
+    if "ghost-child" in extra and sc.trios:
+        f, m, _ = sc.trios[0]
+        lines.insert(len(lines) // 2, f"fam0\tghost\t{f}\t{m}\t0\t1")          # child not in the VCF: ignored
+    if "unknown-parent" in extra:
+        singles = [s for s in sc.samples if s.startswith("S")]
+        if singles and sc.trios:
+            lines.insert(0, f"famS\t{singles[0]}\t0\t{sc.trios[0][1]}\t0\t1")  # father unknown: ignored
+    if "comment" in extra:
+        lines.insert(0, "# family individual father mother sex phenotype")
+        lines.insert(2, "")                                                      # an empty line ("\n") is skipped
+    return "".join(l + "\n" for l in lines)
+
+
+def ped_lines(text):
+    """[child, father|None, mother|None] per non-comment line (what PedReader yields)"""
+    out = []
+    for line in text.splitlines(keepends=True):
+        if line.startswith("#") or line == "\n":
+            continue
+        f = line.split()
+        out.append([f[1], None if f[2] == "0" else f[2], None if f[3] == "0" else f[3]])
+    return out
 
 
 def cli_args(case, fa, bam, vcf, ped, out, files):
@@ -134,6 +180,19 @@ def read_rows(path, sep="\t"):
     return hdr, rows
 
 
+def file_lines(path):
+    """the lines of a list file, None if it does not exist; a last line without terminator is marked"""
+    if not os.path.exists(path):
+        return None
+    text = open(path, encoding="utf-8").read()
+    lines = text.split("\n")
+    if lines[-1] == "":
+        lines.pop()
+    else:
+        lines[-1] += "<no newline at end of file>"
+    return lines
+
+
 def py_recombination(t):
     """independent statement of what `write_recombination_list` has to list for one trace record: a change of
     the child's transmission value between neighbours i-1, i (i >= 2) of a sorted component"""
@@ -167,8 +226,12 @@ def run_case(ctx, case, n):
     shutil.rmtree(d, ignore_errors=True)
     sc = scenario_from_case(case)
     fa, bam, vcf, ped = sc.write(d)
+    ptext = ped_text(sc, o)
+    with open(ped, "w") as f:
+        f.write(ptext)
     out = os.path.join(d, "out.vcf")
     files = {k: os.path.join(d, k + ".list") for k in ("read", "gt", "rec")}
+    pre = {"read": None, "gt": None, "rec": None}
     if case.get("stale_lists", (case.get("gen_seed", 0) % 2 == 0)):
         # the list paths already exist from an earlier run (pipeline re-run into the same paths): the lists must
         # describe THIS run only — leftovers would be rows that are no entry of any processed chromosome/family
@@ -177,6 +240,7 @@ def run_case(ctx, case, n):
                 continue        # only paths handed to whatshap; the others must simply stay absent
             with open(pth, "w") as f:
                 f.write("#stale header from an earlier run\nstaleSample\tchrOld\t123\tA\tC\t0/0\t0/1\tleft over\n")
+            pre[k] = ["#stale header from an earlier run", "staleSample\tchrOld\t123\tA\tC\t0/0\t0/1\tleft over"]
         ctx.dist("list_paths", "pre-existing")
     rc, so, se, trace = R.run_whatshap(ctx, cli_args(case, fa, bam, vcf, ped, out, files), trace=os.path.join(d, "trace.jsonl"))
     ctx.evaluated()
@@ -241,10 +305,23 @@ def run_case(ctx, case, n):
 
     got = {"read": read_rows(files["read"]), "gt": read_rows(files["gt"]), "rec": read_rows(files["rec"], sep=None)}
 
+    raw = {k: file_lines(files[k]) for k in files}
+    # ---------------- F80: nothing processed -> the piecewise lists are never opened; an old file keeps its rows
+    stale_f80 = set()
+    for key, flag in (("gt", "gt_list"), ("rec", "rec_list")):
+        if o[flag] and not processed and pre[key] is not None and raw[key] == pre[key]:
+            stale_f80.add(key)
+            fail(f"F80: the run processed no chromosome (--chromosome {sel}); the requested {key} list was not rewritten and still "
+                 f"holds the {len(pre[key]) - 1} row(s) of an earlier run, none of which is an entry of this run "
+                 f"(the read list was reset to its header)", "F80-stale-list-when-no-chromosome-processed")
+    ctx.dist("processed_chromosomes", len(processed))
+
     # ---------------- lists_cover_run
     for key, want, exp in (("read", o["read_list"], [e["row"] for e in exp_reads]), ("gt", o["gt_list"], diffs), ("rec", o["rec_list"], exp_rec)):
         g = got[key]
         if key == "gt" and rout is None:
+            continue
+        if key in stale_f80:
             continue
         if not want:
             if g is not None:
@@ -279,7 +356,7 @@ def run_case(ctx, case, n):
                 fail(f"readlist_rows_sound: row {row}: the output VCF puts its first variant into phase set {ph[0]}", "readrow-ps")
                 break
     # ---------------- gtchange_rows_eq_diff
-    if o["gt_list"] and got["gt"] and rout is not None:
+    if o["gt_list"] and got["gt"] and rout is not None and "gt" not in stale_f80:
         for row in got["gt"][1]:
             if row not in diffs:
                 fail(f"gtchange_rows_eq_diff: listed change {row} is not a genotype difference between input and output VCF", "gtrow")
@@ -287,7 +364,7 @@ def run_case(ctx, case, n):
     if diffs and not o["distrust"]:
         fail(f"genotypes changed without --distrust-genotypes: {diffs[0]}", "gt-changed-trusted")
     # ---------------- recomb_rows_within_set
-    if o["rec_list"] and got["rec"]:
+    if o["rec_list"] and got["rec"] and "rec" not in stale_f80:
         for row in got["rec"][1]:
             ok = False
             if len(row) == 9:
@@ -333,15 +410,38 @@ def run_case(ctx, case, n):
     for key, flag in (("read", "read_list"), ("gt", "gt_list"), ("rec", "rec_list")):
         impl = None if not isinstance(got[key], tuple) else got[key][1]
         mr, mf = model_rows(rep, key), model_rows(fai, key)
-        if impl == mr or (impl is None and not mr):
+        # rows only: whether a file without data rows exists at all is compared by `c20.files` below (as coded / F80 repaired)
+        if (impl or []) == (mr or []):
             continue
-        if impl == mf or (impl is None and not mf):
+        if (impl or []) == (mf or []):
             ctx.observe(f"{key} list equals the model of the code as it is (F1: file re-opened with 'w'), not the repaired model")
             if not any(k in fails for k in (f"cover-{key}",)):
                 ctx.disagree(f"c20.run[{key}] (repaired writers)", case, impl, mr)
             continue
         if not fails:
             ctx.disagree(f"c20.run[{key}]", case, impl, mr)
+    # ---------------- file level (E14): every line incl. the header, content found before the run, creation
+    chroms_f = []
+    for (chrom, ts), ans in zip(meta, answers):
+        chroms_f.append({"name": chrom, "selected": chrom in processed,
+                         "families": [{"inst": R.inst_from_trace(t), "members": list(t["family"])} for t in ts],
+                         "gtChanges": ans.get("changes", [])})
+    freq = {"op": "c20.files", "opts": mopts, "pre": pre, "chroms": chroms_f}
+    used_samples = list(o.get("samples") or samples)
+    oreq = {"op": "c20.order", "chroms": [[c, c in processed] for c, _ in blocks], "samples": used_samples,
+            "ped": ped_lines(ptext) if o["ped"] else []}
+    f_fix, f_cur, order = ctx.model.ask_many([dict(freq, createAtStart=True), dict(freq, createAtStart=False), oreq])
+    for key in ("read", "gt", "rec"):
+        if key == "gt" and rout is None:
+            continue                       # F21: change rows of an unparsable output are not comparable
+        if raw[key] not in (f_fix.get(key), f_cur.get(key)):
+            if not fails:
+                ctx.disagree(f"c20.files[{key}]", case, raw[key], {"createAtStart": f_fix.get(key), "asCoded": f_cur.get(key)})
+        elif raw[key] != f_fix.get(key):
+            ctx.dist("f80_shape", f"{key}:{'absent' if raw[key] is None else 'stale'}")
+    seen = [[t["chromosome"], list(t["family"]), [tr[2] for tr in t["trios"]]] for t in trace]
+    if seen != order:
+        ctx.disagree("c20.order", case, seen, order)
     n_rows = sum(len(g[1]) for g in got.values() if isinstance(g, tuple))
     if len(trace) >= 2 and n_rows > 0:
         ctx.nontrivial((case["gen_seed"], json.dumps(o, sort_keys=True)))
@@ -353,6 +453,58 @@ def run_case(ctx, case, n):
     shutil.rmtree(d, ignore_errors=True)
 
 
+def families_level(ctx):
+    """`setup_pedigree` + `setup_families` (real, in-process) against `c20.families` on random pedigrees: several
+    generations, half-known parents, individuals that are not samples, sample order unrelated to the PED order"""
+    import logging
+    from whatshap.cli.phase import setup_families
+    rng = ctx.rng
+    d = ctx.workdir()
+    reqs, reals = [], []
+    logging.disable(logging.CRITICAL)
+    try:
+        for n in range((150 if ctx.quick else 1500) * ctx.scale):
+            k = rng.choice([2, 3, 4, 6, 9, 12])
+            names = [rng.choice("ABCDEFGHKMZabz") + rng.choice(["", "1", "2", "10", "_x"]) + "." + str(i) for i in range(k)]   # distinct
+            rng.shuffle(names)
+            samples = [x for x in names if rng.random() < 0.85] or names[:1]
+            order = list(range(k))
+            ped = []
+            for ci in range(k):           # parents have a smaller index than the child: no cycles, one line per individual
+                if ci >= 2 and rng.random() < 0.8:
+                    f, m = rng.sample(range(ci), 2)
+                    x = rng.random()
+                    ped.append([names[ci], None if x < 0.1 else names[f], None if 0.1 <= x < 0.2 else names[m]])
+                elif rng.random() < 0.3:
+                    ped.append([names[ci], None, None])
+            rng.shuffle(ped)
+            path = os.path.join(d, f"fam{n}.ped")
+            with open(path, "w") as f:
+                for c, fa, mo in ped:
+                    f.write(f"fam\t{c}\t{fa or '0'}\t{mo or '0'}\t0\t1\n")
+            try:
+                fams, ftrios = setup_families(samples, path, 15)
+            except Exception as e:                      # the model is total: any exception is a difference
+                os.remove(path)
+                reals.append({"families": {"raised": type(e).__name__}})
+                reqs.append({"op": "c20.families", "samples": samples, "ped": ped})
+                continue
+            os.remove(path)
+            reals.append({"families": [{"rep": r, "members": list(m), "trios": [[t.father, t.mother, t.child] for t in ftrios.get(r, [])]}
+                                       for r, m in sorted(fams.items())],
+                          "kept": None})
+            reqs.append({"op": "c20.families", "samples": samples, "ped": ped})
+            ctx.dist("ped_families", len(fams)); ctx.dist("ped_largest_family", max(len(m) for m in fams.values()))
+    finally:
+        logging.disable(logging.NOTSET)
+    answers = []
+    for i in range(0, len(reqs), 50):
+        answers += ctx.model.ask_many(reqs[i:i + 50])
+    for req, real, model in zip(reqs, reals, answers):
+        if model.get("families") != real["families"]:
+            ctx.disagree("c20.families", {"samples": req["samples"], "ped": req["ped"]}, real["families"], model.get("families"))
+
+
 def run(ctx):
     cases = [c for _, c in ctx.corpus()]
     if ctx.replay:
@@ -362,9 +514,13 @@ def run(ctx):
         run_case(ctx, c, n); n += 1
     if ctx.replay:
         return
+    families_level(ctx)
     total = (36 if ctx.quick else 300) * ctx.scale
     for _ in range(total):
         run_case(ctx, gen_case(ctx.rng, scale=1 if ctx.quick else 2), n); n += 1
+    if os.environ.get("C20_DEBUG"):
+        for op, case, impl, model in ctx.disagreements:
+            print("DEBUG-DISAGREE", op, json.dumps(case)[:400], "\nIMPL", str(impl)[:1200], "\nMODEL", str(model)[:1200])
     try:
         os.rmdir(ctx.workdir())
     except OSError:
